@@ -612,6 +612,96 @@ func TestTCPIsolation(t *testing.T) {
 	vf.Rapid(s, vf.N(25, 300), func(t *rapid.T) burstCase { return genBurst(t, "tcp") }, checkBurstClassed(s), burstNontrivial)
 }
 
+// ---- responses above the 576 bytes of a datagram ---------------------------------------------------------------
+//
+// The bursts above keep UDP responses within the 576 bytes every NBNS datagram endpoint must accept. A group name
+// with many members makes the positive query response longer than that (48 bytes per member): a datagram server
+// then truncates or marks it, on a code path nothing else reaches. Whatever it does with the contents, "every
+// response carries the transaction id of exactly one request": the ids are drawn so that every bit of the id is
+// clear in some request and set in another. Only the id, the response bit and that every request is answered are
+// judged here; the contents of a response that may have been cut are not.
+
+type largeCase struct {
+	Kind    string   `json:"server"`
+	Members int      `json:"group_members"`
+	IDs     []uint16 `json:"query_ids"`
+}
+
+func checkLarge(c largeCase) []vf.Finding {
+	srv, err := startServer(c.Kind)
+	if err != nil {
+		return []vf.Finding{vf.F("harness", "cannot-start-server", "%v", err)}
+	}
+	defer srv.srv.Stop()
+	cl, err := dial(srv)
+	if err != nil {
+		return []vf.Finding{vf.F("harness", "cannot-dial", "%v", err)}
+	}
+	defer cl.close()
+	const name = "BIGGROUP"
+	member := func(k int) net.IP { return net.IPv4(10, 77, byte(k>>8), byte(k)).To4() }
+	// which section of a registration the server reads: settled by the first member
+	inAddl, found := false, false
+	for _, addl := range []bool{false, true} {
+		cl.exchange(req{ID: 0x0900, Opcode: 5, NM: 0x0080, QName: name, RRName: name, RRIP: member(0), InAddl: addl}, replyWait)
+		if resolvable(cl, 0x0901, name, member(0)) {
+			inAddl, found = addl, true
+			break
+		}
+	}
+	if !found {
+		return []vf.Finding{vf.F(c.Kind+"/opcode-5", "registration-not-effective", "cannot register the group %s", name)}
+	}
+	for k := 1; k < c.Members; k++ {
+		p, ok := cl.exchange(req{ID: uint16(0x0A00 + k), Opcode: 5, NM: 0x0080, QName: name, RRName: name, RRIP: member(k), InAddl: inAddl}, replyWait)
+		if !ok || p.Rcode != 0 {
+			return []vf.Finding{vf.F(c.Kind+"/opcode-5", "group-registration-refused", "member %d of %s: answered %v, rcode %d", k+1, name, ok, p.Rcode)}
+		}
+	}
+	var fs []vf.Finding
+	for _, id := range c.IDs {
+		p, ok := cl.exchange(req{ID: id, Opcode: 0, QName: name}, replyWait)
+		if ns := neverSent(cl); len(ns) > 0 {
+			return []vf.Finding{vf.F(c.Kind, "response-with-transaction-id-never-sent", "query %#04x for a group of %d members: the server sent %s; no request with such an id was sent to it", id, c.Members, strings.Join(ns, ", "))}
+		}
+		if !ok {
+			fs = append(fs, vf.F(c.Kind, "request-never-answered", "query %#04x for a group of %d members", id, c.Members))
+			break
+		}
+		if p.Flags&0x8000 == 0 {
+			fs = append(fs, vf.F(c.Kind, "response-without-response-bit", "query %#04x for a group of %d members: flags %#04x (%d bytes)", id, c.Members, p.Flags, len(p.Raw)))
+			break
+		}
+	}
+	return fs
+}
+
+func TestLargeResponses(t *testing.T) {
+	s := vf.Begin(t, P, "large-response-ids")
+	vf.Rapid(s, vf.N(30, 400), func(t *rapid.T) largeCase {
+		c := largeCase{Kind: rapid.SampledFrom([]string{"udp", "udp", "server", "tcp"}).Draw(t, "server"), Members: rapid.IntRange(8, 40).Draw(t, "members")}
+		// every bit of the id clear in one request and set in another, then drawn ones
+		c.IDs = []uint16{0x0000, 0xFFFF, 0x5555, 0xAAAA}
+		for i, n := 0, rapid.IntRange(1, 4).Draw(t, "more"); i < n; i++ {
+			c.IDs = append(c.IDs, rapid.Uint16().Draw(t, "id"))
+		}
+		// the ids of the registrations above are not queried again
+		out := c.IDs[:0]
+		for _, id := range c.IDs {
+			if id < 0x0900 || id > 0x0AFF {
+				out = append(out, id)
+			}
+		}
+		c.IDs = out
+		return c
+	}, func(c largeCase) []vf.Finding {
+		if 12+48*c.Members > 576 {
+			s.Class("response-above-576-bytes")
+		}
+		return checkLarge(c)
+	}, func(c largeCase) bool { return c.Members >= 12 })
+}
+
 // ---- LLMNR server: every response answers its own request --------------------------------------------------
 
 type llmnrCase struct {
@@ -691,15 +781,28 @@ func runLLMNRServer(c llmnrCase) []vf.Finding {
 	var mu sync.Mutex
 	var wg sync.WaitGroup
 	start := make(chan struct{})
+	// every client socket is bound here, while the servers' sockets are open: a client bound after an early Close
+	// could be given the port a server has just released, send its query to itself and take it for the answer
+	socks := make([]*net.UDPConn, c.N)
+	for i := range socks {
+		sock, err := net.ListenUDP("udp4", &net.UDPAddr{IP: net.IPv4(127, 0, 0, 1)})
+		if err != nil {
+			for _, s := range socks[:i] {
+				s.Close()
+			}
+			for _, in := range insts {
+				in.srv.Close()
+			}
+			return []vf.Finding{vf.F("harness", "cannot-listen", "%v", err)}
+		}
+		socks[i] = sock
+	}
 	for i := 0; i < c.N; i++ {
 		wg.Add(1)
 		go func(i int) {
 			defer wg.Done()
 			to := insts[i%len(insts)].to
-			sock, err := net.ListenUDP("udp4", &net.UDPAddr{IP: net.IPv4(127, 0, 0, 1)})
-			if err != nil {
-				return
-			}
+			sock := socks[i]
 			defer sock.Close()
 			q := llmnr.NewMessage()
 			q.ID = uint16(0x3000 + i)
